@@ -44,6 +44,8 @@ def scenarios(tier):
                         'kwargs': {'positive': positive, 'layout': 'tkyx', 'second': 'shared'}})
             out.append({'name': f'ocean_floor[dimension coordinate k(k), positive={positive}, temp(k, t, y, x)]', 'fn': 'scn_floor',
                         'kwargs': {'positive': positive, 'layout': 'ktyx', 'dimcoord': True}})
+    for given in ('tuple', 'iterator', 'generator'):
+        out.append({'name': f'ocean_floor[depth coordinates given as a {given}]', 'fn': 'scn_floor', 'kwargs': {'positive': 'down', 'layout': 'tkyx', 'given': given}})
     out.append({'name': "ocean_floor[positive='DOWN' (CF: case-insensitive)]", 'fn': 'scn_floor', 'kwargs': {'positive': 'DOWN', 'layout': 'tkyx'}})
     out.append({'name': 'ocean_floor[no non-spatial variables given: records are columns of their own]', 'fn': 'scn_floor', 'kwargs': {'positive': 'up', 'layout': 'tkyx', 'nonspatial': False}})
     out.append({'name': 'ocean_floor[dimension coordinate k(k)]', 'fn': 'scn_floor', 'kwargs': {'positive': 'down', 'layout': 'tkyx', 'dimcoord': True}})
@@ -165,7 +167,7 @@ def _hints(c, out_var, dep, sizes, K, inst, point_loc):
         pass
 
 
-def scn_floor(c, positive, layout, nonspatial=True, dimcoord=False, second=None):
+def scn_floor(c, positive, layout, nonspatial=True, dimcoord=False, second=None, given='list'):
     it = new_interp()
     ds, names, dep, col, sizes, dims, locdims = _build(c, positive, layout, dimcoord, second)
     sigma = _sigma(positive)
@@ -179,7 +181,10 @@ def scn_floor(c, positive, layout, nonspatial=True, dimcoord=False, second=None)
     exists, K, inst = _deepest(c, dep, sigma, col, sizes, loc)
     before = {k: (v.dims, v.arr, dict(v.attrs)) for k, v in ds._vars.items()}
     kw = {'non_spatial_variables': ['time']} if nonspatial else {}
-    out = expect_ok(c, 'ocean_floor returns', lambda: call(it, f, ds, list(names), **kw))
+    # the depth coordinates may be given as any iterable (the documented type): a list, a tuple, or a one-shot iterator / generator
+    arg = {'list': lambda: list(names), 'tuple': lambda: tuple(names), 'iterator': lambda: iter(list(names)),
+           'generator': lambda: (nm for nm in list(names))}[given]()
+    out = expect_ok(c, 'ocean_floor returns', lambda: call(it, f, ds, arg, **kw))
     if positive == 'absent':
         c.check('a missing positive attribute is guessed with a warning', any(e[0] == 'warning' for e in c.events))
     # ---- ghost lemma calls: the argmax theory at the layers the argument needs ------------------------------------
